@@ -53,7 +53,7 @@ def tasks_c01(tier, seed):
         ts += explore("Q2", CFG_DEFAULT, 2) + explore("Q2", alt, 2)
         ts += explore("Q7", "w1-in4-default-direct", 2, shards=2, timeout="60s") + explore("Q7", CFG_DEFAULT, 1, timeout="60s")
         ts += explore("Q3", CFG_DEFAULT, 1, timeout="60s") + explore("Q3", alt, 2, shards=4, timeout="60s")
-        ts += explore("Q6", alt, 2, shards=2, timeout="60s") + explore("Q6", "w1-in4-default-direct", 1, shards=2, timeout="60s")
+        ts += explore("Q6", alt, 2, shards=6, timeout="100s") + explore("Q6", "w1-in4-default-direct", 1, shards=2, timeout="60s")
         ts += explore("Q1", CFG_DEFAULT, 0, shards=1, timeout="60s")
         # nested submissions: a callback is itself a producer for its own and another group
         ts += explore("Q8", "w1-in4-default-direct", 2, timeout="60s") + explore("Q8", alt, 2, timeout="60s") + explore("Q8", CFG_DEFAULT, 1, shards=2, timeout="60s")
@@ -96,11 +96,11 @@ def tasks_c03(tier, seed):
         for s in scens:
             big = s in ("S1", "S2", "Q6", "S8r", "QEshutdownBusy", "S9")
             ts += explore(s, "w1-in4-default-direct", 2, shards=4 if big else 1, timeout="100s")
-            if s == "QEshutdownBusy":
-                continue  # two workers: thorough tier only (1.5 million schedules at bound 1)
+            if s in ("QEshutdownBusy", "S8", "S8r"):
+                continue  # two workers: thorough tier only (more than a million schedules at bound 1)
             if s == "S13b":
                 continue  # two workers: thorough tier only
-            if s in ("S8", "S8r", "S4q", "S9", "S12", "S13"):
+            if s in ("S4q", "S9", "S12", "S13", "S6", "QEshutdown"):
                 ts += explore(s, CFG_DEFAULT, 1, shards=2, timeout="100s")
             elif s != "Q6":
                 ts += explore(s, CFG_DEFAULT, 1 if big else 2, shards=2 if big else 1, timeout="100s")
@@ -172,9 +172,9 @@ def tasks_c15(tier, seed):
     w1 = "w1-in4-default-direct"
     # a query event that outlives a Shutdown / Serve cycle, and a new one in the second epoch
     if tier == "quick":
-        ts = explore("QErestart", w1, 1, shards=8, timeout="100s")
+        ts = explore("QErestart", w1, 0, shards=1, timeout="100s")  # bound 1 is 4 million schedules: thorough tier
     else:
-        ts = explore("QErestart", w1, 2, shards=16, timeout="5m") + explore("QErestart", CFG_DEFAULT, 1, shards=16, timeout="5m")
+        ts = explore("QErestart", w1, 1, shards=16, timeout="5m") + explore("QErestart", CFG_DEFAULT, 0, shards=4, timeout="5m")
     for s in QE_SCENS:
         big = s in ("QE2", "QEconc", "QEshutdownBusy")
         if tier == "quick":
@@ -212,7 +212,7 @@ def SH_TASKS(tier, race=False):
     if tier == "quick":
         for typ in ("model", "collection"):
             ts += explore("SH1-mock-" + typ, w2, 1 if race else 2, shards=4, race=race, timeout="100s")
-        ts += explore("SH1-badger-prefix-collection", w1, 1, shards=4, race=race, timeout="100s")
+        ts += explore("SH1-badger-prefix-collection", w1, 0 if race else 1, shards=4, race=race, timeout="100s")
     else:
         for typ in ("model", "collection"):
             ts += explore("SH1-mock-" + typ, w2, 2 if race else 3, shards=8, race=race, timeout="10m")
